@@ -23,6 +23,7 @@ func init() {
 		Trusted:   "go/types+go/ssa; C09 for what the Exchange verifies; sync.Mutex semantics",
 		Run:       runC19,
 		Imports: []Import{
+			{From: "C07.a", Match: "target-only-above-store", As: "C19.f", Why: "Head() prefers the pending sync target to the stored head: a target at or below the stored head (the late answer of a head request for a height gossip has already stored) is never cleaned out, Head() stays on it while the store moves on, and asks the network although a recent head is known"},
 			{From: "C15.a", Match: "nil-needs-verify", As: "C19.e", Why: "while the stored head is expired the only way to a new subjective head is the re-initialisation from trusted peers: every other candidate (gossip, the soft-failure branch of the refresh) goes through verify, which must not accept anything header.Verify or the search has not accepted — also not 'because the local head is expired anyway'"},
 		},
 	})
